@@ -159,7 +159,7 @@ CHECKS = {
           "sample seek). "
           "Per run: ov_halfrate toggled at random points of seek/read histories, every op compared with VFile.v and every read bit for bit with a packet-level decode "
           "that had the setting from the start; final linear read counts ceil(N/2) per link.",
-  "note": VF_NOTE + " Streams whose beginning is trimmed by an odd count (all positions on the odd grid) are excluded from this check.",
+  "note": VF_NOTE + " Streams whose beginning is trimmed by an odd count (all positions on the odd grid) are excluded from this check; even trims are generated.",
   "technique": "Coq proof (count by induction over blocks; half-rate synchronisation and seek invariants) + correspondence of toggling histories vs lib/vorbisfile.c",
  },
  "C07": {
